@@ -471,6 +471,7 @@ impl Check for MaxTimestampWins {
                 }
             }
         }
+        rep.class_if(case.msgs.iter().any(|m| matches!(m.key, Key::Balance { .. }) && m.v % 5 == 0), "zero_balance_message");
         rep.class_if(stale > 0, "stale_delivery");
         rep.class_if(dup > 0, "duplicate_delivery");
         rep.class_if(equal_ts > 0, "equal_timestamp_different_value");
